@@ -158,6 +158,9 @@ type Mod struct {
 	// DefsLast: the groupings are written after the data nodes and augments (the order of the body statements of a
 	// module means nothing): every uses in the data tree then refers forward
 	DefsLast bool `json:"defs_last,omitempty"`
+	// AugmentsReversed: the augments are written last-first (an augment whose target another augment of the module
+	// adds then stands before that one)
+	AugmentsReversed bool `json:"augments_reversed,omitempty"`
 }
 
 // ---- rendering -----------------------------------------------------------------
@@ -497,8 +500,12 @@ func (m *Mod) Text() string {
 	for _, n := range m.Nodes {
 		x.node(1, n)
 	}
-	for _, a := range m.Augments {
-		x.augment(1, a)
+	for i := range m.Augments {
+		if m.AugmentsReversed {
+			x.augment(1, m.Augments[len(m.Augments)-1-i])
+		} else {
+			x.augment(1, m.Augments[i])
+		}
 	}
 	if m.DefsLast {
 		for _, g := range m.Groupings {
